@@ -52,9 +52,11 @@ def run(tier, replay=None):
     # (B) line i of aifeyn_n.txt belongs to line i of trees_n.txt
     libs = [("core_maths", 4), ("core_maths", 5), ("ext_maths", 4)] if tier == "quick" else \
         [(k, n) for k in bases.SHIPPED for n in (2, 3, 4)] + [("core_maths", 5), ("core_maths", 6), ("ext_maths", 5), ("base_e_maths", 5)]
-    libs += [("verif_ax", 4)] if tier == "quick" else [(k, n) for k in bases.USER_STYLE for n in (3, 4)]
+    extra = dict(bases.USER_STYLE, verif_sqexp=[["x", "a"], ["square", "exp"], ["+", "*", "-", "/", "pow"]],       # rewritten trees printed in 75..85 characters
+                 verif_long=[["x", "a"], ["tenexp", "log10_abs"], ["-"]], verif_chain=[["x", "a"], ["tenexp", "log10_abs"], []])
+    libs += [("verif_ax", 4), ("verif_sqexp", 5), ("verif_long", 6), ("verif_chain", 7)] if tier == "quick" else [(k, n) for k in bases.USER_STYLE for n in (3, 4)] + [("verif_sqexp", 5), ("verif_long", 6), ("verif_chain", 7), ("verif_chain", 8)]
     for name, n in libs:
-        L, _ = common.gen_library(r, s, name, n, basis=bases.USER_STYLE.get(name))
+        L, _ = common.gen_library(r, s, name, n, basis=extra.get(name))
         if L is None:
             continue
         ev, failed, det, codes = common.judge_library(r, L, "%s_n%d" % (name, n), common.C08_CLAUSES, want_code=True, c02=False, c03=False)
